@@ -823,4 +823,96 @@ impl<K: KdfTrait> Drop for ExporterSecret<K> {
     dict(name='c07-export-ignores-context', expect=[('C07', 'R07.1')],
          note='exporter context ignored: all exports of one length are equal',
          edits=[(AEAD, '.labeled_expand(&self.suite_id, b"sec", exporter_ctx, out_buf)', '.labeled_expand(&self.suite_id, b"sec", &[], out_buf)')]),
+    # ------------------------------------------------------------------ C08
+    dict(name='c08-pkS-removed-from-both-contexts', expect=[('C08', 'R08.1')],
+         note='sender identity not bound into kem_context (both sides): needs an impostor with a related key to show',
+         edits=[(DHKEM, """                    let (kem_context_buf, kem_context_size) = concat_with_known_maxlen!(
+                        MAX_PUBKEY_SIZE,
+                        &encapped_key.to_bytes(),
+                        &pk_recip.to_bytes(),
+                        &pk_sender_id.to_bytes()
+                    );""", """                    let (kem_context_buf, kem_context_size) = concat_with_known_maxlen!(
+                        MAX_PUBKEY_SIZE,
+                        &encapped_key.to_bytes(),
+                        &pk_recip.to_bytes()
+                    );
+                    let _ = pk_sender_id;"""), (DHKEM, """                        let (kem_context_buf, kem_context_size) = concat_with_known_maxlen!(
+                            MAX_PUBKEY_SIZE,
+                            &encapped_key.to_bytes(),
+                            &pk_recip.to_bytes(),
+                            &pk_sender_id.to_bytes()
+                        );""", """                        let (kem_context_buf, kem_context_size) = concat_with_known_maxlen!(
+                            MAX_PUBKEY_SIZE,
+                            &encapped_key.to_bytes(),
+                            &pk_recip.to_bytes()
+                        );""")]),
+    dict(name='c08-identity-dh-removed-both-sides', expect=[('C08', 'R08.1')],
+         note='static-static DH term dropped: anyone knowing pkS can impersonate the sender',
+         edits=[(DHKEM, """                    let (concatted_secrets_buf, concatted_secret_size) = concat_with_known_maxlen!(
+                        MAX_PUBKEY_SIZE,
+                        &kex_res_eph.to_bytes(),
+                        &kex_res_identity.to_bytes()
+                    );""", """                    let _ = &kex_res_identity;
+                    let (concatted_secrets_buf, concatted_secret_size) = concat_with_known_maxlen!(
+                        MAX_PUBKEY_SIZE,
+                        &kex_res_eph.to_bytes(),
+                        &kex_res_eph.to_bytes()
+                    );"""),
+                (DHKEM, """                        let (concatted_secrets_buf, concatted_secret_size) = concat_with_known_maxlen!(
+                            MAX_PUBKEY_SIZE,
+                            &kex_res_eph.to_bytes(),
+                            &kex_res_identity.to_bytes()
+                        );""", """                        let _ = &kex_res_identity;
+                        let (concatted_secrets_buf, concatted_secret_size) = concat_with_known_maxlen!(
+                            MAX_PUBKEY_SIZE,
+                            &kex_res_eph.to_bytes(),
+                            &kex_res_eph.to_bytes()
+                        );""")]),
+    dict(name='c08-authpsk-yields-no-identity', expect=[('C08', 'R08.2')],
+         note='AuthPsk mode silently degrades to Psk on both sides',
+         edits=[(OPMODE, "            OpModeR::AuthPsk(pk, _) => Some(pk),", "            OpModeR::AuthPsk(_pk, _) => None,"),
+                (OPMODE, "            OpModeS::AuthPsk(keypair, _) => Some((&keypair.0, &keypair.1)),", "            OpModeS::AuthPsk(_keypair, _) => None,")]),
+    dict(name='c08-identity-dh-uses-ephemeral-key', expect=[('C08', 'R08.1')],
+         note='second DH computed with the ephemeral key on the sender and with pkE on the receiver (consistent, no authentication)',
+         edits=[(DHKEM, "let kex_res_identity = <$dhkex as DhKeyExchange>::dh(sk_sender_id, pk_recip)", "let kex_res_identity = <$dhkex as DhKeyExchange>::dh(&sk_eph, pk_recip)"),
+                (DHKEM, "let kex_res_identity = <$dhkex as DhKeyExchange>::dh(sk_recip, pk_sender_id)", "let kex_res_identity = <$dhkex as DhKeyExchange>::dh(sk_recip, &encapped_key.0)")]),
+    dict(name='c08-setup-ignores-identity', expect=[('C08', 'R08.2')],
+         note='setup passes None to encap/decap in every mode',
+         edits=[(SETUP, "let (shared_secret, encapped_key) = Kem::encap(pk_recip, sender_id_keypair, csprng)?;", "let _ = sender_id_keypair; let (shared_secret, encapped_key) = Kem::encap(pk_recip, None, csprng)?;"),
+                (SETUP, "let shared_secret = Kem::decap(sk_recip, pk_sender_id, encapped_key)?;", "let _ = pk_sender_id; let shared_secret = Kem::decap(sk_recip, None, encapped_key)?;")]),
+    # ------------------------------------------------------------------ C01
+    dict(name='c01-decap-context-order', expect=[('C01', 'R01.2')],
+         note='receiver builds kem_context = pkRm || enc (asymmetric: caught by the round-trip tests too)',
+         edits=[(DHKEM, """                        let (kem_context_buf, kem_context_size) = concat_with_known_maxlen!(
+                            MAX_PUBKEY_SIZE,
+                            &encapped_key.to_bytes(),
+                            &pk_recip.to_bytes()
+                        );""", """                        let (kem_context_buf, kem_context_size) = concat_with_known_maxlen!(
+                            MAX_PUBKEY_SIZE,
+                            &pk_recip.to_bytes(),
+                            &encapped_key.to_bytes()
+                        );""")]),
+    dict(name='c01-receiver-info-from-other-slice', expect=[('C01', 'R01.1')],
+         note='receiver key schedule ignores info',
+         edits=[(SETUP, """    let enc_ctx = derive_enc_ctx::<_, _, Kem, _>(mode, shared_secret, info);
+    Ok(enc_ctx.into())""", """    let enc_ctx = derive_enc_ctx::<_, _, Kem, _>(mode, shared_secret, &info[..0]);
+    Ok(enc_ctx.into())""")]),
+    dict(name='c01-open-different-nonce-helper', expect=[('C01', 'R01.3')],
+         note='receiver computes the nonce from seq+1',
+         edits=[(AEAD, """            let nonce = mix_nonce::<A>(&self.0.base_nonce, &self.0.seq);
+            let decrypt_res = self""", """            let nonce = mix_nonce::<A>(&self.0.base_nonce, &Seq(self.0.seq.0.wrapping_add(1)));
+            let decrypt_res = self""")]),
+    dict(name='c01-sender-drops-pkS-only', expect=[('C01', 'R01.2')],
+         note='only the sender omits pkSm (asymmetric; Auth-mode round trips fail)',
+         edits=[(DHKEM, """                    let (kem_context_buf, kem_context_size) = concat_with_known_maxlen!(
+                        MAX_PUBKEY_SIZE,
+                        &encapped_key.to_bytes(),
+                        &pk_recip.to_bytes(),
+                        &pk_sender_id.to_bytes()
+                    );""", """                    let (kem_context_buf, kem_context_size) = concat_with_known_maxlen!(
+                        MAX_PUBKEY_SIZE,
+                        &encapped_key.to_bytes(),
+                        &pk_recip.to_bytes()
+                    );
+                    let _ = pk_sender_id;""")]),
 ]
